@@ -41,6 +41,11 @@ def shapes_int(depth):
             yield ('bin', op, 'X', 'M')
             yield ('bin', op, 'M', 'X')
             yield ('bin', op, 'X', ('bin', '+', 'M', 'X'))
+        for op in ('/', '%'):                 # the divisor is a call to bump (returns its non-zero argument) or x (>= 10)
+            yield ('bin', op, 'X', 'M')
+            yield ('bin', op, 'M', 'X')
+            yield ('bin', op, 'I', 'M')
+            yield ('bin', op, ('bin', '+', 'I', 'M'), 'M')
         yield ('two', 'X', 'M')
         yield ('pick', 'X', 'M', 'X', 'M')
     subs = list(shapes_int(depth - 1))
@@ -77,10 +82,12 @@ def shapes_bool(depth):
                 yield (op, a, b)
     for a in subs:
         yield ('not', a)
-    for op in ('<', '=='):
+    for op in ('<', '==', '>', '>=', '<=', '!='):       # every comparison operator: both operands log, and the X / M pair
         for a in isubs[:4]:
             for b in isubs[:4]:
                 yield ('cmp', op, a, b)
+        yield ('cmp', op, 'X', 'M')
+        yield ('cmp', op, 'M', 'X')
 
 
 def instantiate(shape, t):
@@ -136,7 +143,19 @@ def extended_cases(rng, n):
     out = []
     for i in range(n):
         ks = [rng.randint(1, 9) for _ in range(6)]
-        kind = i % 9
+        kind = i % 10
+        if kind == 9:
+            # the callee of `obj.field(args)` is a VALUE read before the arguments run: an argument that re-assigns the
+            # field does not change which function this call runs (a method body, in contrast, reads self at call time)
+            a, b2 = ks[0], ks[1]
+            src = ("class B {\n  cb: fn(int) -> int\n  n: int\n  constructor(self, cb: fn(int) -> int) {\n    self.cb = cb\n    self.n = 1\n  }\n"
+                   "  fn scale(self, k: int) -> int {\n    return k * self.n\n  }\n}\n"
+                   "inc = fn(x: int) -> int {\n  return x + 1\n}\nh100 = fn(x: int) -> int {\n  return x * 100\n}\n"
+                   "swap = fn(o: B, k: int) -> int {\n  print k\n  o.cb = h100\n  o.n = 50\n  return k\n}\n"
+                   "b = B(inc)\nprint b.cb(swap(b, %d))\nb2 = B(inc)\nprint b2.scale(swap(b2, %d))\nprint (b2.cb)(log(%d))\n" % (a, b2, a))
+            exp = [str(a), str(a + 1), str(b2), str(b2 * 50), str(a), str(a * 100)]
+            out.append((src, exp))
+            continue
         if kind >= 5:
             a, b, c, k, j = ks[:5]
             pre2 = ("xs: [int...] = [%d, %d, %d]\nclass Box {\n  v: int\n  constructor(self, v: int) {\n    self.v = v\n  }\n}\nbox = Box(%d)\n"
@@ -233,7 +252,7 @@ def run(ctx):
             ctx.report("generator-rejected", "an evaluation-order program is rejected by the compiler: %s" % r.get("stderr", "")[-300:],
                        {"project": coretie.slim(r["proj"])}, found_input=False)
     # extended stream with the Python oracle
-    ext = extended_cases(ctx.rng, 90 if ctx.quick() else 900)
+    ext = extended_cases(ctx.rng, 100 if ctx.quick() else 1000)
     base = ctx.mktemp()
     pre = "log = fn(k: int) -> int {\n  print k\n  return k\n}\n"   # (extended stream: values are used as given)
 
